@@ -856,9 +856,8 @@ enc_common(const char *tmpl, const json_t *ek, const json_t *dk, int io)
         jose_io_t *m = jose_io_malloc(CFG, &ct, &ctl);
         jose_io_t *b = jose_b64_enc_io(m);
         jose_io_t *e = m && b ? jose_jwe_enc_io(CFG, jwe, NULL, ek, b) : NULL;
-        /* io == 1: one feed.  With "zip" every feed call is compressed as a deflate stream of
-         * its own (lib/misc.c handle_zip_enc), so a plaintext fed in several chunks does not
-         * decrypt even without any fault: not this property's subject (chunking: C07) */
+        /* io = number of feed calls (1 or 3).  Since /repo commit cba5ab8 the plaintext is compressed by ONE
+         * deflate stage in front of the cipher, so "zip" can be streamed in several chunks as well */
         R.ok = e && (io == 1 ? e->feed(e, PT, PTL) && e->done(e) : feed3(e, PT, PTL));
         if (R.ok && json_object_set_new(jwe, "ciphertext", json_stringn(ct ? ct : "", ctl)) < 0)
             R.ok = false;
@@ -892,7 +891,7 @@ static void s_enc_dir(void) { enc_common(TM_DIR, key("oct2"), key("oct2"), 0); }
 static void s_enc_infer(void) { enc_common("{}", key("kw"), key("kw"), 0); }
 static void s_encio_kwgcm(void) { enc_common(TM_KWGCM, key("kw"), key("kw"), 3); }
 static void s_encio_cbc(void) { enc_common(TM_CBC, key("kw"), key("kw"), 3); }
-static void s_encio_zip(void) { enc_common(TM_ZIP, key("kw"), key("kw"), 1); }
+static void s_encio_zip(void) { enc_common(TM_ZIP, key("kw"), key("kw"), 3); }
 
 static void
 dec_common(const json_t *tok, const json_t *k, bool want, bool io)
